@@ -659,6 +659,36 @@ func (s *splitFn) coord(c *Ctx, name string) {
 		}
 	})
 	if lowCell == nil {
+		// the start offset is a plain SSA value: it is fixed where it is defined; that definition must precede field parsing
+		allInstrs(fn, func(in ssa.Instruction) {
+			sl, ok := in.(*ssa.Slice)
+			if !ok || advCell == nil || sl.Low == nil {
+				return
+			}
+			if u, ok := sl.High.(*ssa.UnOp); !ok || u.X != ssa.Value(advCell) {
+				return
+			}
+			def, ok := sl.Low.(ssa.Instruction)
+			if !ok {
+				return
+			}
+			var startBlk *ssa.BasicBlock
+			allInstrs(fn, func(i2 ssa.Instruction) {
+				if st, ok := i2.(*ssa.Store); ok {
+					if f, _ := fieldOfAddr(st.Addr); f != nil && splitScratch[f.Name()] != "" {
+						if s2, ok := st.Val.(*ssa.Slice); ok && s2.High != nil {
+							if k, ok := s2.High.(*ssa.Const); ok && k.Value != nil && k.Value.ExactString() == "0" && startBlk == nil {
+								startBlk = i2.Block()
+							}
+						}
+					}
+				}
+			})
+			if startBlk == nil {
+				return
+			}
+			c.check(!reachableFromStrict(startBlk)[def.Block()] || def.Block() == startBlk, "coord:"+name+":record-start-fixed", sl.Pos(), "the record-start offset is fixed before parsing of the record's fields begins", name+": the offset marking the start of the record text is computed after parsing of the record has begun")
+		})
 		return
 	}
 	// marker: the block that resets the scratch record buffer to length 0 (start of field parsing)
